@@ -141,7 +141,16 @@ func (r *Run) Sample(s interface{}) {
 func (r *Run) Assume(s string) { r.mu.Lock(); r.assumptions = append(r.assumptions, s); r.mu.Unlock() }
 func (r *Run) Note(s string)   { r.mu.Lock(); r.notes = append(r.notes, s); r.mu.Unlock() }
 
-func matchFingerprint(pat, fp string) bool {
+func matchFingerprint(pats, fp string) bool {
+	for _, pat := range strings.Split(pats, " | ") {
+		if matchOne(strings.TrimSpace(pat), fp) {
+			return true
+		}
+	}
+	return false
+}
+
+func matchOne(pat, fp string) bool {
 	if strings.HasSuffix(pat, "*") {
 		return strings.HasPrefix(fp, strings.TrimSuffix(pat, "*"))
 	}
